@@ -1,4 +1,5 @@
 import LopdfModel.Model.ExtractText
+import LopdfModel.Lemmas.ExtractBridge
 import LopdfModel.Thm.C16Page
 /-
   C16 — `Document::extract_text` of a built page, as the composition of the models
@@ -139,9 +140,17 @@ theorem c16g_extract_built_page (ext : Ext) (os : Objects) (pid : ObjId) (F : C1
     extractPage ext os pid = .ok (c16fSpecText F none [] cmds) := by
   have hmain := (c16f_extract_page F hF cmds hok).2
   simp only [extractTextOfContent] at hmain
-  simp only [extractPage, c16g_getPageFonts ext os pid F _ h, c16g_getPageContent ext os pid F _ h]
+  -- C13's `extractPage` runs the `FontEnc` loop; without ToUnicode fonts that is C16's loop (Lemmas/ExtractBridge)
+  have hencs : fontEncs ext os (F.map fun x => (x.1, x.2.1)) = .ok (stdEncs (c16fEncs F)) := by
+    simpa [c16fEncs] using fontEncs_std ext os F hF
+  simp only [extractPage, c16g_getPageFonts ext os pid F _ h, c16g_getPageContent ext os pid F _ h, hencs]
   cases hd : decodeContent (encodeContent (c16fOps F none cmds)) with
-  | ok ops => simpa [hd, opsView] using hmain
+  | ok ops =>
+    simp only [hd, extractText, c16f_fontEncodings F hF] at hmain
+    have hb := extractLoopF_std (c16fEncs F) (opsView ops) { cur := none, done := [], text := [] }
+    simp only [XState.embed, Option.map_none, opsView] at hb hmain
+    simp only [hb]
+    exact hmain
   | err e => simp [hd] at hmain
   | panic s => simp [hd] at hmain
 
